@@ -22,7 +22,7 @@ def jobs(tier):
             js.append((f"set/{p}/{n}", (6 if n == 0 else 4) if q else (10 if n == 0 else 6)))
     js.append(("vec2/6", 7 if q else 10))
     js.append(("vec2cap/5", 7 if q else 10))
-    js.append(("unord", 8 if q else 12))
+    js.append(("unord", 11 if q else 14))
     js.append(("ord", 8 if q else 12))
     return js
 
